@@ -604,6 +604,59 @@ func checkUnassignableIDs(prog *core.Program, r3 *core.RuleRun, sd *setDecoder) 
 			}
 		}
 	}
+	// blocks reachable without entering a loop body (first pass, no pruning)
+	lf := map[*ssa.BasicBlock]bool{}
+	{
+		stack := []*ssa.BasicBlock{dd.Blocks[0]}
+		for len(stack) > 0 {
+			b := stack[len(stack)-1]
+			stack = stack[:len(stack)-1]
+			if lf[b] || inLoop[b] {
+				continue
+			}
+			lf[b] = true
+			stack = append(stack, b.Succs...)
+		}
+	}
+	// an error value that is nil on every loop-free path (a result variable of an inlined helper, say, that only a
+	// loop body assigns)
+	var nilLF func(v ssa.Value, depth int) bool
+	nilLF = func(v ssa.Value, depth int) bool {
+		if depth > 8 {
+			return false
+		}
+		switch x := v.(type) {
+		case *ssa.Const:
+			return x.IsNil()
+		case *ssa.Phi:
+			for i, e := range x.Edges {
+				if !lf[x.Block().Preds[i]] {
+					continue
+				}
+				if !nilLF(e, depth+1) {
+					return false
+				}
+			}
+			return true
+		case *ssa.UnOp:
+			if x.Op == token.MUL {
+				vals := core.ReachingStores(x)
+				if len(vals) == 0 {
+					return false
+				}
+				for _, sv := range vals {
+					if in, ok := sv.(ssa.Instruction); ok && in.Block() != nil && !lf[in.Block()] {
+						continue
+					}
+					if !nilLF(sv, depth+1) {
+						return false
+					}
+				}
+				return true
+			}
+		}
+		return false
+	}
 	seen := map[*ssa.BasicBlock]bool{}
 	stack := []*ssa.BasicBlock{dd.Blocks[0]}
 	bad := token.NoPos
@@ -616,10 +669,7 @@ func checkUnassignableIDs(prog *core.Program, r3 *core.RuleRun, sd *setDecoder) 
 		seen[b] = true
 		if r, ok := b.Instrs[len(b.Instrs)-1].(*ssa.Return); ok && len(r.Results) > 0 {
 			ev := r.Results[len(r.Results)-1]
-			fatal := true
-			if c, isC := ev.(*ssa.Const); isC && c.IsNil() {
-				fatal = false
-			}
+			fatal := !nilLF(ev, 0)
 			if mi, isMI := ev.(*ssa.MakeInterface); isMI && sd.nonfatal != nil && types.Identical(mi.X.Type(), sd.nonfatal) {
 				fatal = false
 			}
@@ -627,7 +677,24 @@ func checkUnassignableIDs(prog *core.Program, r3 *core.RuleRun, sd *setDecoder) 
 				bad = r.Pos()
 			}
 		}
-		stack = append(stack, b.Succs...)
+		for si, sc := range b.Succs {
+			// `if err != nil` on a value that is nil on these paths goes one way only
+			if cond, truth, ok := core.IfEdge(b, si); ok {
+				if bo, isB := cond.(*ssa.BinOp); isB && (bo.Op == token.NEQ || bo.Op == token.EQL) {
+					x, y := bo.X, bo.Y
+					if c, isC := x.(*ssa.Const); isC && c.IsNil() {
+						x, y = y, x
+					}
+					if c, isC := y.(*ssa.Const); isC && c.IsNil() && nilLF(x, 0) {
+						isNil := bo.Op == token.EQL
+						if isNil != truth {
+							continue
+						}
+					}
+				}
+			}
+			stack = append(stack, sc)
+		}
 	}
 	r3.Check(bad == token.NoPos, core.FuncName(dd)+":empty-template-not-fatal", dd.Pos(), "over an empty template the record decoder returns no fatal error",
 		"over a template without fields the record decoder returns a fatal error ("+prog.Pos(bad)+"): flowsets with the reserved ids 2 and 3, which always come with the empty template, then make the whole datagram fail instead of being skipped")
